@@ -408,3 +408,39 @@ Definition commit_fees (sh : shares) (r : reserve) (is_success : bool) : dres :=
       end
   | _ => DPanic PkOverflow
   end.
+
+(* ---- events and vault writes of finalize_fees_for_commit ------------------------------------------------ *)
+(* vault ids: a fee-locking vault is the number used in `locked`; the royalty vault of a recipient is the
+   recipient's number (RoyaltyRecipient::vault_id); REWARDS_VAULT is the consensus manager's rewards vault *)
+Inductive event := EvDeposit (vault amount : Z) | EvPayFee (vault amount : Z) | EvBurn (amount : Z).
+Definition REWARDS_VAULT : Z := -1.
+
+(* per lock entry, in loop order: (vault, amount taken) where taken = locked - put back *)
+Fixpoint paid_per_lock (ls : list (Z * Z * bool)) (refs : list (Z * Z)) : list (Z * Z) :=
+  match ls, refs with
+  | (v, lk, _) :: ls', (_, rest) :: refs' => (v, lk - rest) :: paid_per_lock ls' refs'
+  | _, _ => []
+  end.
+
+(* `if !to_proposer.is_zero() || !to_validator_set.is_zero()` *)
+Definition rewards_paid (o : dist_out) : bool := negb ((d_proposer o =? 0) && (d_validator o =? 0)).
+
+(* the events pushed by finalize_fees_for_commit, in order: a DepositEvent per royalty recipient, a
+   PayFeeEvent per locked fee (reverse lock order), the rewards-vault DepositEvent, the burn event *)
+Definition fee_events (s : summary) (o : dist_out) : list event :=
+  map (fun e => EvDeposit (fst e) (snd e)) (d_royalties o)
+  ++ map (fun e => EvPayFee (fst e) (snd e)) (paid_per_lock (rev (s_locked s)) (d_refunds o))
+  ++ (if rewards_paid o then [EvDeposit REWARDS_VAULT (d_proposer o + d_validator o)] else [])
+  ++ (if 0 <? d_burn o then [EvBurn (d_burn o)] else []).
+
+(* the vault balance writes: royalty vaults receive their royalties, every locking vault gets back
+   locked - taken (the locked amount left the vault when the fee was locked), the rewards vault receives
+   proposer + validator-set rewards *)
+Definition vault_writes (o : dist_out) : list (Z * Z) :=
+  d_royalties o ++ d_refunds o
+  ++ (if rewards_paid o then [(REWARDS_VAULT, d_proposer o + d_validator o)] else []).
+
+(* ValidatorRewardsSubstate.proposer_rewards[current_leader] += to_proposer (only inside the
+   rewards_paid branch, only when there is a leader) *)
+Definition proposer_reward (leader : option Z) (o : dist_out) : option (Z * Z) :=
+  if rewards_paid o then match leader with Some l => Some (l, d_proposer o) | None => None end else None.
